@@ -100,7 +100,8 @@ class C11(Prop):
             lib.cJSON_AddItemToArray(inner, lib.cJSON_CreateNumber(-5.0)) if not case["object"] else lib.cJSON_AddNumberToObject(inner, b"k-5", -5.0)
             if lib.cJSON_GetArraySize(src) != n or lib.cJSON_GetArraySize(inner) != n + 1:
                 raise Violation("appending to the copy of a long container changed the source (or was lost)", key="wide-independent")
-            if not lib.cJSON_Compare(root, root, 1):
+            # (comparing objects may legitimately cost a key lookup per member: only moderate sizes are compared)
+            if (n <= 20000 or not case["object"]) and not lib.cJSON_Compare(root, root, 1):
                 raise Violation("a long container does not compare equal to itself", key="wide-compare")
         finally:
             lib.cJSON_Delete(root)
